@@ -307,6 +307,33 @@ def new_counts():
                 known_hits={})
 
 
+def severed_pass(ck, rounds=None):
+    """real-mode variants of the step PeerDies that differ in what the kernel reports to the survivor (clean close, close
+    with unread bytes in the dead peer's socket = ECONNRESET, half-close); harness/zz_severed_test.go"""
+    job = {'wait_ms': 8000, 'rounds': rounds or (1 if ck.tier == 'quick' else 4)}
+    g = gorun.run_harness('^TestVS_Severed$', ['zz_severed_test.go'], None, inputs={'job': job}, timeout=900)
+    r = g.result
+    if r is None:
+        ck.notes.append('severed pass produced no result (rc=%s): %s' % (g.rc, g.out[-300:]))
+        return
+    viols = r['violations']
+    if viols:
+        # anything that is not clean is executed a second time alone before it is reported
+        g2 = gorun.run_harness('^TestVS_Severed$', ['zz_severed_test.go'], None, inputs={'job': dict(job, rounds=1)}, timeout=900)
+        again = {v['scenario'] for v in (g2.result or {}).get('violations', [])}
+        for v in viols:
+            if v['scenario'] in again:
+                ck.violation('%s (%s): %s' % (v['kind'], v['scenario'], v['detail']), {'kind': 'severed', 'scenario': v['scenario']})
+                break
+        else:
+            ck.notes.append('severed pass: %d observations did not repeat when run again: %s' % (len(viols), viols[:2]))
+    ck.cov['severed_scenarios'] = sorted(set(r['done']))
+    ck.cov['severed_not_realised'] = r['not_realised'][:6]
+    ck.add('evaluations', r['checks'])
+    ck.assumptions.append('severed pass: a byte relay between two real sessions stands for the peer process so that the peer can '
+                          'stop reading and be cut off independently of the peer session object living in the same process')
+
+
 def run(prop, tier, seed, replay=None):
     ck = core.Check(prop, 'model_checking', tier, seed)
     rng = random.Random(ck.seed)
@@ -337,6 +364,11 @@ def run(prop, tier, seed, replay=None):
 
     if replay:
         rep = json.load(open(replay))
+        if rep.get('kind') == 'severed':
+            ck.cov['evaluations'] = 0
+            ck.cov['distinct_nontrivial'] = 1
+            severed_pass(ck, rounds=1)
+            return ck.finish()
         if rep.get('kind') == 'listener':
             from checks import listenermod
             ck.cov['evaluations'] = 1
@@ -643,6 +675,8 @@ def run(prop, tier, seed, replay=None):
         ck.notes.append('%d behaviours could not be set up / driven (harness): %s' % (len(counts['harness_problems']), counts['harness_problems'][:3]))
         if len(counts['harness_problems']) > max(3, counts['behaviours'] // 10):
             ck.inconc('too many behaviours could not be executed by the harness: %s' % counts['harness_problems'][:3])
+    if not ck.violations:
+        severed_pass(ck)
     if not ck.violations:
         # the server-side Listener (accept loop, session set, Close): module Listener, an additional pass of this check
         from checks import listenermod
